@@ -223,7 +223,7 @@ class Profile:
 
 
 def run_engine(prop: str, tier: str, lean_modules: List[str], profiles: List[Profile],
-               extra_obligations: List[str] = (), level_text: str = '') -> int:
+               extra_obligations: List[str] = (), level_text: str = '', extra=None) -> int:
     v = common.Verdict(prop, tier)
     rng = random.Random(common.seed() * 7919 + sum(map(ord, prop)))
     rep = common.check_lean(lean_modules, list(extra_obligations), leanchecker=(tier == 'thorough'))
@@ -260,8 +260,14 @@ def run_engine(prop: str, tier: str, lean_modules: List[str], profiles: List[Pro
         ir = run_impl(cases, san=prof.san, per_tu=prof.per_tu, tag=f"{prop}_{prof.name}")
         for ce in ir.compile_errors:
             v.broke(f"harness no longer compiles against /repo ({prof.name}): {ce[:1500]}")
-        for cr in ir.crashes:
-            v.broke(f"harness run aborted ({prof.name}): {cr[:3000]}")
+        by_cid = {c.cid: c for c in cases}
+        for cid, cr in ir.crashes:
+            if cid is not None and cid in by_cid and len(v.violations) < 5:
+                c0 = by_cid[cid]
+                v.failing_input(case_payload(c0, None, mt.get(cid), {'oracle': 'sanitizer', 'profile': prof.name,
+                                                                      'what': "the real parser aborted under AddressSanitizer/UBSan on this input", 'report': cr[:3000]}))
+            elif cid is None:
+                v.broke(f"harness run aborted ({prof.name}): {cr[:3000]}")
         wft = {k[2:]: v for k, v in sems.items() if k.startswith('W:')}
         pstat = {'grammars': len(groups), 'grammars_meeting_theorem_hypotheses_WFT': sum(1 for g, _, _ in groups if wft.get(g.gid) == '1' and g.gid not in bad_g),
                  'dropped_out_of_fuel': len(bad_g), 'cases': len(cases), 'compile_cpu_s': round(ir.compile_s, 1),
@@ -274,8 +280,8 @@ def run_engine(prop: str, tier: str, lean_modules: List[str], profiles: List[Pro
         for c in cases:
             m = mt[c.cid]
             i = ir.traces.get(c.cid)
-            if i is None:
-                continue
+            if i is None or not i.result:
+                continue      # not run, or aborted by a sanitizer (reported above)
             cov['evaluations'] += 1
             pstat['results'][{'1': 'ok', '0': 'fail', '2': 'exception'}.get(i.result.split()[1], 'fail')] += 1
             h = hashlib.sha256(("\n".join(c.g.proto_lines()) + repr(c.cfg) + c.data.hex() + repr(c.init)).encode()).hexdigest()
@@ -318,6 +324,8 @@ def run_engine(prop: str, tier: str, lean_modules: List[str], profiles: List[Pro
         cov['programs'] += pstat['grammars'] - pstat['dropped_out_of_fuel']
         cov['profiles'][prof.name] = pstat
     cov['model_impl_disagreements'] = mismatches
+    if extra is not None:
+        extra(v, cov, rng)
     if not cov['samples']:
         cov['samples'].append({'note': 'no non-trivial case sampled'})
     ev = {'level': 'proof', 'coverage': cov,
@@ -339,7 +347,7 @@ def replay(prop: str, path: str, oracles, use_sem: bool = False) -> int:
     mt, sems = run_model([c], 400, use_sem)
     ir = run_impl([c], san='asan+ubsan', per_tu=1, tag=f"{prop}_replay")
     if ir.compile_errors or ir.crashes:
-        print("\n".join(ir.compile_errors + ir.crashes)[:4000])
+        print("\n".join(ir.compile_errors + [m for _, m in ir.crashes])[:4000])
         print(f"VIOLATION property={prop} replay={path}")
         return 1
     i = ir.traces.get(c.cid)
